@@ -54,8 +54,9 @@ extern int verif_overread;
   (t)==DBUS_TYPE_UINT32||(t)==DBUS_TYPE_INT64||(t)==DBUS_TYPE_UINT64||(t)==DBUS_TYPE_DOUBLE||(t)==DBUS_TYPE_UNIX_FD)
 #define VERIF_CLASS_STRING(t) ((t)==DBUS_TYPE_STRING||(t)==DBUS_TYPE_OBJECT_PATH||(t)==DBUS_TYPE_SIGNATURE)
 #define VERIF_CLASS_ARRAY(t) ((t)==DBUS_TYPE_ARRAY)
-#define VERIF_CLASS_NESTED(t) ((t)==DBUS_TYPE_VARIANT||(t)==DBUS_TYPE_STRUCT||(t)==DBUS_TYPE_DICT_ENTRY)
-#define VERIF_CLASSES_COVER(t) ((t)==DBUS_TYPE_INVALID||VERIF_CLASS_FIXED(t)||VERIF_CLASS_STRING(t)||VERIF_CLASS_ARRAY(t)||VERIF_CLASS_NESTED(t))
+#define VERIF_CLASS_VARIANT(t) ((t)==DBUS_TYPE_VARIANT)
+#define VERIF_CLASS_STRUCT(t) ((t)==DBUS_TYPE_STRUCT||(t)==DBUS_TYPE_DICT_ENTRY)
+#define VERIF_CLASSES_COVER(t) ((t)==DBUS_TYPE_INVALID||VERIF_CLASS_FIXED(t)||VERIF_CLASS_STRING(t)||VERIF_CLASS_ARRAY(t)||VERIF_CLASS_VARIANT(t)||VERIF_CLASS_STRUCT(t))
 #ifdef VERIF_TYPE_SUBSET     /* development only: restrict the reader's type codes to debug contracts cheaply */
 #define VERIF_CUR_OK(t) ((t)==DBUS_TYPE_INVALID || (VERIF_IS_TYPE(t) && VERIF_TYPE_SUBSET(t)))
 #else
